@@ -81,6 +81,45 @@ def iter_kinds(I):
     return out
 
 
+def role_map(I, name, ty, nextk):
+    """Leaf path -> role name, independent of the private field names: the NodeId leaf is `root`, the Option<NodeEdge> leaf `next`, a single
+    Option<NodeId> leaf `node`; of two Option<NodeId> leaves the one whose value `next()` yields is `head`, the other `tail`."""
+    kinds = {}
+    build(I, ty, lambda k, p: kinds.setdefault(p, k) and none())
+    roles = {}
+    cursors = [p for p, k in kinds.items() if k == "opt_id"]
+    for p, k in kinds.items():
+        if k == "id":
+            roles[p] = "root"
+        elif k == "opt_edge":
+            roles[p] = "next"
+    if len(cursors) == 1:
+        roles[cursors[0]] = "node"
+    elif len(cursors) == 2:
+        roles[cursors[0]], roles[cursors[1]] = "head", "tail"
+        # behavioural orientation: two distinct generic cursors, which one does next() yield?
+        st = State()
+        a, b = st.new_node(True, "first leaf"), st.new_node(True, "second leaf")
+        order = iter((a, b))
+        val = build(I, ty, lambda k, p: some(st.id_of(next(order))) if k == "opt_id" else (st.id_of(a) if k == "id" else none()))
+        slot = st.new_temp(val)
+        ys = set()
+        try:
+            for (s1, k1, v1, m1) in run_fn(I, st, nextk, lambda s: [VRef(slot, (), True)]):
+                if k1 == "return" and isinstance(v1, VEnum) and v1.variant == "Some":
+                    ys.add(s1.node_of_id(v1.get("0")))
+        except (Undecided, Panic):
+            pass
+        if ys == {b}:
+            roles[cursors[0]], roles[cursors[1]] = "tail", "head"
+    # anything else keeps its path as name
+    for p in kinds:
+        roles.setdefault(p, "/".join(p))
+    if len(set(roles.values())) != len(roles):
+        roles = {p: "/".join(p) for p in kinds}
+    return roles
+
+
 def run_fn(I, st, key, args):
     """All terminals of calling `key` from st: [(state, kind, value, msg)]."""
     return _stage(I, [st], key, lambda s: args(s), None)
@@ -89,6 +128,10 @@ def run_fn(I, st, key, args):
 def iters_entry(I):
     recs = []
     for (name, ty, nextk, backk, newk) in iter_kinds(I):
+        roles = role_map(I, name, ty, nextk)
+
+        def rkey(p, roles=roles):
+            return roles.get(tuple(p), "/".join(p))
         # ---- constructor table
         if newk:
             st = State()
@@ -97,7 +140,7 @@ def iters_entry(I):
                 view = spec.View(I, s1)
                 rec = {"entry": "iters", "table": name + "::new", "exit": k1, "msg": m1, "node": x}
                 if k1 == "return":
-                    rec["state"] = {"/".join(p): dec(view, val) for p, val in leaves(v1)}
+                    rec["state"] = {rkey(p): dec(view, val) for p, val in leaves(v1)}
                     rec["facts"] = {f: view.pre(x, f) for f in ("parent", "first_child", "last_child") if f in s1.nodes[x].h0}
                     rec["reach"] = [list(r) for r in s1.meta.get("reach", ())]
                     pp = s1.h0_link(x, "parent")
@@ -136,7 +179,7 @@ def iters_entry(I):
                 st = State()
                 info = {}
 
-                def leaf(kind, path, st=st, case=case, info=info):
+                def leaf(kind, path, st=st, case=case, info=info, roles=roles):
                     if kind == "id":
                         r = info.setdefault("root", st.new_node(True, "root"))
                         return st.id_of(r)
@@ -155,8 +198,7 @@ def iters_entry(I):
                             c = info.setdefault("c", st.new_node(True, "generic cursor"))
                             return some(st.id_of(c))
                         return none()
-                    first = not info.get("seen_first")
-                    info["seen_first"] = True
+                    first = roles.get(tuple(path)) != "tail"
                     if tag == "SS-eq":
                         c = info.setdefault("c", st.new_node(True, "generic cursor"))
                         info["h"] = info["t"] = c
@@ -186,7 +228,7 @@ def iters_entry(I):
                     if k1 == "return":
                         rec["yield"] = dec(view, v1)
                         after = s1.meta["temps"][slot[1]]
-                        rec["state"] = {"/".join(p): dec(view, x) for p, x in leaves(after)}
+                        rec["state"] = {rkey(p): dec(view, x) for p, x in leaves(after)}
                         writes = [e for e in s1.events if e[0] in ("write", "write-arena", "push", "clear")]
                         rec["writes"] = len(writes)
                         c = info.get("c") or info.get("h") or info.get("t")
